@@ -307,7 +307,8 @@ def main(tier, seed, only=None):
         jobs += [("H01b", "H01b:loop:n2", h01b("regular", 2, False, "loop"))]
     else:
         jobs = [("H01a", f"H01a:n{n}:k{k}", h01a(n, k)) for n, k in ((2, 2), (2, 3), (3, 2), (3, 3), (4, 2))]
-        jobs += [("H01b", f"H01b:front:{c}:n{n}:{'u' if u else 'w'}", h01b(c, n, u, "front")) for c in CELLS_B for n in (1, 2, 3) for u in (False, True)]
+        jobs += [("H01b", f"H01b:front:{c}:n{n}:w", h01b(c, n, False, "front")) for c in CELLS_B for n in (1, 2, 3)]
+        jobs += [("H01b", f"H01b:front:regular:n{n}:u", h01b("regular", n, True, "front")) for n in (1, 2)]      # unwrapped: the cell gets symbolic (scaled by the atoms' span); n=3 did not finish in 80 min
         jobs += [("H01b", f"H01b:loop:n{n}", h01b("regular", n, False, "loop")) for n in (1, 2, 3)]
     for fam, name, fn in jobs:
         if only and not any(name.startswith(o) for o in only):
